@@ -51,7 +51,9 @@ func (s *Service) BeaconBlockHeader(ctx context.Context,
 	// We create a cancelable context with a timeout.  When a provider responds we cancel the context to cancel the other requests.
 	ctx, cancel := context.WithTimeout(ctx, s.timeout)
 
-	respCh := make(chan *beaconBlockHeaderResp, 1)
+	// The channel has room for every provider, so that a provider that responds after the first
+	// response has been taken does not block for ever.
+	respCh := make(chan *beaconBlockHeaderResp, len(s.beaconBlockHeadersProviders))
 	for name, provider := range s.beaconBlockHeadersProviders {
 		go func(ctx context.Context,
 			name string,
